@@ -31,9 +31,17 @@ Proof.
   destruct (skipn _ (sp_sent s)) eqn:E; cbn [fst snd sp_sent sp_acked]; rewrite ?E; auto.
 Qed.
 
-(* acknowledgement requests and answers are never held or counted *)
-Theorem C10_acks_not_held : forall st k d, k <> KStanza -> fst (a_send st k d) = st.
+(* acknowledgement requests and answers are never held or counted: through Send (by value or
+   by pointer: both are the same kind of packet) and through SendRaw (a raw <r/> or <a/>) *)
+Theorem C10_acks_not_held : forall st k d, k <> KStanza ->
+  fst (a_step st (ASend k d)) = st /\ fst (a_step st (ASendRaw k d)) = st.
 Proof. exact acks_not_held. Qed.
+
+(* a stanza that Send or SendRaw refuses (the write fails, the caller gets the error) was not sent
+   on the session: after any history it is neither held nor numbered, and nothing reaches the wire *)
+Theorem C10_refused_not_held : forall ops k d,
+  a_step (a_exec q_init ops) (ARefused k d) = (a_exec q_init ops, []).
+Proof. exact refused_not_held. Qed.
 
 (* queue ids are the absolute numbers: in every state reachable from the initial
    queue the held entries are numbered acked+1, acked+2, ... *)
@@ -46,8 +54,9 @@ Proof.
 Qed.
 
 Example C10_example :
-  a_run q_init [ASendRaw [1%N]; ASend KStanza [2%N]; ASend KRequest []; ASendRaw [3%N];
-                AAck 2; ASend KAnswer [9%N]; AAck 1; AAck 7; ASendRaw [4%N]; AAck 3]
+  a_run q_init [ASendRaw KStanza [1%N]; ASend KStanza [2%N]; ASend KRequest []; ASendRaw KStanza [3%N];
+                AAck 2; ASend KAnswer [9%N]; AAck 1; AAck 7; ARefused KStanza [5%N]; ASendRaw KRequest [];
+                ASendRaw KStanza [4%N]; AAck 3; AAck (2 ^ 63)]
   = [([WData [1%N]], [(1, [1%N])]);
      ([WData [2%N]], [(1, [1%N]); (2, [2%N])]);
      ([WRequest], [(1, [1%N]); (2, [2%N])]);
@@ -56,11 +65,15 @@ Example C10_example :
      ([WData [9%N]], [(3, [3%N])]);
      ([WData [3%N]; WRequest], [(3, [3%N])]);
      ([], []);
+     ([], []);
+     ([WRequest], []);
      ([WData [4%N]], [(4, [4%N])]);
-     ([WData [4%N]; WRequest], [(4, [4%N])])].
+     ([WData [4%N]; WRequest], [(4, [4%N])]);
+     ([], [])].
 Proof. reflexivity. Qed.
 
 Print Assumptions C10_refines_spec.
 Print Assumptions C10_spec_ack.
 Print Assumptions C10_acks_not_held.
+Print Assumptions C10_refused_not_held.
 Print Assumptions C10_absolute_numbering.
